@@ -4,6 +4,7 @@ import (
 	"context"
 	"encoding/json"
 	"fmt"
+	"strings"
 
 	"github.com/ipfs/go-cid"
 	unixfsnode "github.com/ipfs/go-unixfsnode"
@@ -55,12 +56,27 @@ type c06Replay struct {
 
 var c06Vias = []string{"preload-reifier", "preload-selector", "entity-selector"}
 
+// c06ViasFor: files are additionally accessed through a reifying link system.
+func c06ViasFor(d *c12Dag) []string {
+	if d.tree != nil && d.c.Kind == "file" {
+		return append(append([]string{}, c06Vias...), "preload-reifier/reifying-ls", "preload-selector/reifying-ls", "entity-selector/reifying-ls")
+	}
+	return c06Vias
+}
+
 // c06Do performs the whole-entity access through one of the three routes.
 func c06Do(d *c12Dag, via string) error {
 	ls := lsFor(d.s)
+	// ".../reifying-ls": the same access through a link system that reifies
+	// every node it loads (children reach the library already interpreted); the
+	// root itself is loaded plain
+	if strings.HasSuffix(via, "/reifying-ls") {
+		via = strings.TrimSuffix(via, "/reifying-ls")
+		ls = lsReifying(d.s)
+	}
 	switch via {
 	case "preload-reifier":
-		rn, err := loadRoot(ls, d.root)
+		rn, err := loadRoot(lsFor(d.s), d.root)
 		if err != nil {
 			return fmt.Errorf("harness: load root: %w", err)
 		}
@@ -83,7 +99,7 @@ func c06FetchSet(d *c12Dag, viol func(sig, detail string), r *core.Run) {
 	// sharded directories are accessed twice (fresh link system and node each
 	// time): what an earlier access left behind in the process must not stand in
 	// for blocks of a later one
-	vias := c06Vias
+	vias := c06ViasFor(d)
 	if d.hm != nil {
 		vias = append(append([]string{}, c06Vias...), c06Vias...)
 	}
@@ -346,7 +362,7 @@ func runC06(r *core.Run) {
 				r.Sample(map[string]any{"dag": c.String(), "entity_blocks": len(d.blocks)})
 			}
 			c06FetchSet(d, func(sig, detail string) { r.Violate(sig, detail, c06Replay{Case: c}) }, r)
-			for _, via := range c06Vias {
+			for _, via := range c06ViasFor(d) {
 				for _, b := range d.blocks {
 					for _, kind := range store.AllKinds {
 						withheld.add(1)
